@@ -216,14 +216,11 @@ def v_cdd(rng, fail):
     base = [F(rng.randrange(-40, 80), 8) for _ in names]
     est = [[b + F(rng.randrange(-16, 17), 16) for b in base] for _ in range(ncase)]
     C = spd(rng, npar)
-    # label ORDER: every replicate Series may list the parameters in its own order, the base results in another one.
-    # compute_cook_scores is positional w.r.t. the covariance matrix (finding C19-CDD-COOK-POSITIONAL): the random inputs
-    # stay inside its precondition (first replicate in the base's order, or the base's order sorted).
+    # label ORDER: every replicate Series may list the parameters in its own order, the base results (estimates and
+    # covariance matrix) in yet another one (compute_cook_scores aligns by name since fix 7b6cdfd)
     permute = rng.random() < 0.6
     rep_orders = [rng.sample(names, npar) if permute else list(names) for _ in range(ncase)]
     base_order = rng.sample(names, npar) if permute else list(names)
-    if rep_orders[0] != base_order and base_order != sorted(base_order):
-        base_order = sorted(base_order) if rng.random() < 0.5 else list(rep_orders[0])
     ix = {nm: j for j, nm in enumerate(names)}
     df_est = pd.DataFrame(data=[pd.Series([float(e[ix[nm]]) for nm in order], index=order, name='c%d' % i)
                                 for i, (e, order) in enumerate(zip(est, rep_orders))])
@@ -433,7 +430,7 @@ def v_simeval(rng, fail):
 
 
 def probe_cook_positional():
-    """Witness of finding C19-CDD-COOK-POSITIONAL: returns (reproduced, detail)."""
+    """Witness of the fixed finding C19-CDD-COOK-POSITIONAL (regression probe): returns (reproduced, detail)."""
     import numpy as np
     import pandas as pd
     from pharmpy.tools.cdd.results import compute_cook_scores
@@ -452,6 +449,9 @@ PARTS = [('bootstrap', v_bootstrap), ('cdd', v_cdd), ('shrinkage', v_shrinkage),
 
 def run_one(part, seed):
     """returns (number of compared values, list of failures)"""
+    if seed == 'probe_cook_positional':
+        rep, detail = probe_cook_positional()
+        return 1, ([('cook positional', detail)] if rep else [])
     rng = random.Random(seed)
     fails = []
     f = dict(PARTS)[part]
@@ -481,9 +481,14 @@ def run(ctx):
                 ctx.violation(f'statistic does not equal its defining formula: {what}',
                               {'stats': {'part': part, 'seed': seed}, 'detail': detail})
         out[part] = {'sets': reps[part], 'values_compared': total, 'failures': nf}
+    reproduced, detail = probe_cook_positional()
+    if reproduced:
+        ctx.violation('statistic does not equal its defining formula: cdd Cook score with differing label order '
+                      '(recurrence of C19-CDD-COOK-POSITIONAL)', {'stats': {'part': 'cdd', 'seed': 'probe_cook_positional'}, 'detail': detail})
+    out['cook_positional_regression_probe'] = {'reproduced': reproduced, 'detail': detail}
     out['input_styles'] = ('replicate Series / frames with identical, permuted and ragged (missing + extra labels) label order; '
                            'reference recomputed ALIGNED BY NAME, NaN = absent, pairwise-complete covariance')
     ctx.coverage['validation_only_statistics'] = out
     ctx.notes.append('resampling / diagnostic statistics: VALIDATION ONLY (exact rational recomputation, tolerance 1e-9), '
                      'not part of the proof obligations')
-    ctx.log('statistics validation done', {k: v['values_compared'] for k, v in out.items() if isinstance(v, dict)})
+    ctx.log('statistics validation done', {k: v['values_compared'] for k, v in out.items() if isinstance(v, dict) and 'values_compared' in v})
